@@ -15,7 +15,9 @@ EXTRA = {"C05_B": ["C17"], "C15_B": ["C15", "C16"], "C16_B": ["C16", "C15"], "C1
          "C08_D": ["C13", "C08"], "C09_C": ["C09", "C15"],
          "C01_E": ["C17", "C01"], "C01_F": ["C13", "C01"], "C02_E": ["C01", "C02"], "C02_F": ["C13", "C02"], "C03_E": ["C13", "C03"],
          "C04_E": ["C14", "C04"], "C05_E": ["C17", "C05"], "C05_F": ["C13", "C05"], "C07_E": ["C13", "C07"], "C07_F": ["C17", "C07"],
-         "C08_E": ["C15", "C08"], "C15_E": ["C03", "C15"], "C15_F": ["C01", "C15"], "C17_E": ["C01", "C17"]}
+         "C08_E": ["C15", "C08"], "C15_E": ["C03", "C15"], "C15_F": ["C01", "C15"], "C17_E": ["C01", "C17"],
+         "C01_H": ["C17", "C01"], "C02_G": ["C17", "C02"], "C04_G": ["C13", "C04"], "C05_G": ["C07", "C05"], "C07_G": ["C15", "C07"],
+         "C07_H": ["C17", "C07"], "C08_H": ["C17", "C08"], "C10_G": ["C02", "C10"], "C15_H": ["C07", "C15"]}
 
 
 def sh(cmd):
@@ -62,7 +64,9 @@ def main():
                       + ("; second round: the agent was also shown one-paragraph summaries of the first-round changes A/B for this property "
                          "and asked for harder ones (histories, long inputs, cooperating edits)" if mid[-1] in "CD" else "")
                       + ("; third round: the agent saw summaries of A-D and was asked for cross-API interactions, numerical edges far from the "
-                         "small cases, argument-type sensitivity, rarely used entry points and three-step histories" if mid[-1] in "EF" else ""),
+                         "small cases, argument-type sensitivity, rarely used entry points and three-step histories" if mid[-1] in "EF" else "")
+                      + ("; fourth round: the agent saw one-line summaries of A-F and was asked to go through the statement clause by clause and "
+                         "break clauses no earlier change touched" if mid[-1] in "GH" else ""),
             "description_and_what_it_needs_to_manifest": desc.strip(),
             "confirmed_in_scratch_worktree": {
                 "procedure": "in /tmp/wt/%s: demo on clean tree, git apply patch, 42 stable tests (guard off), demo again, revert" % prop,
